@@ -13,11 +13,13 @@ import (
 	"fmt"
 	"io"
 	"math/rand"
+	"net"
 	"runtime"
 	"runtime/debug"
 	"sort"
 	"strings"
 	"sync"
+	"syscall"
 	"time"
 
 	netty "github.com/go-netty/go-netty"
@@ -152,6 +154,7 @@ type opRun struct {
 	inPos            int  // position in the parsed stream (-1 = absent)
 	touched          bool // the writer itself called the transport during this op (sync mode)
 	hadExc           bool // an exception was raised on the writer's goroutine during this (message) op
+	issued           int  // step during which the writer made the call (it may return without ever reaching a gate)
 }
 
 type probe struct {
@@ -184,6 +187,9 @@ type chanWorld struct {
 	closeInvoked int // step at which the winning closer made its first step
 	okAtClose    []*opRun
 	winnerPolls  int
+	firstPollAt  time.Time // when the Close call that took effect began to wait for the sender
+	graceChecked bool
+	winnerDrains bool // the Close call that took effect has taken over the sender role (it stood at a sender gate)
 	faultsUsed   int
 	closersDone  map[string]bool
 
@@ -437,6 +443,7 @@ func splitParts(p []byte, parts int) [][]byte {
 func (w *chanWorld) writerMain(ws WriterSpec) func() {
 	return func() {
 		for _, op := range w.ops[ws.Name] {
+			op.issued = w.step
 			buf := append([]byte(nil), op.payload...)
 			var n int64
 			var err error
@@ -598,8 +605,17 @@ func (w *chanWorld) writerMain(ws WriterSpec) func() {
 }
 
 func closeArg(arg string) error {
-	if arg == "nil" {
+	switch arg {
+	case "nil":
 		return nil
+	case "eof": // what a read loop passes on after the peer's half-close
+		return io.EOF
+	case "ueof":
+		return fmt.Errorf("close-wrapped: %w", io.ErrUnexpectedEOF)
+	case "neterr":
+		return &net.OpError{Op: "read", Net: "tcp", Err: syscall.ECONNRESET}
+	case "netclosed":
+		return net.ErrClosed
 	}
 	return fmt.Errorf("close-%s", arg)
 }
@@ -835,6 +851,10 @@ func (w *chanWorld) oracleStep(noFault bool) {
 			switch op.res {
 			case "nospace", "ctx", "closed", "zero":
 				w.fail("C01", "err-bytes/"+op.res, fmt.Sprintf("%s.%d (%s) returned %s (%v) but its bytes were transmitted", op.w, op.idx, op.spec.Kind, op.res, op.err))
+				if w.c.QSize > 0 {
+					// back-pressure: a call that gives up (queue full, context ended, channel closed) transmits nothing
+					w.fail("C18", "error-but-transmitted/"+op.res, fmt.Sprintf("%s.%d (%s) returned %s (%v) but its payload went through the queue and was transmitted", op.w, op.idx, op.spec.Kind, op.res, op.err))
+				}
 			}
 		}
 		if op.ret >= 0 && op.res == "ok" && !op.present() {
@@ -909,7 +929,11 @@ func (w *chanWorld) oracleStep(noFault bool) {
 	// C11: calls begun after a Close call had returned
 	if w.closeRetStep >= 0 {
 		for _, op := range ops {
-			if op.began > w.closeRetStep {
+			began := op.began
+			if began < 0 && op.ret >= 0 {
+				began = op.issued // the call returned without passing any gate
+			}
+			if began > w.closeRetStep {
 				if op.anyPresent() {
 					w.fail("C11", "bytes-after-close/"+op.spec.Kind, fmt.Sprintf("%s.%d (%s) began after Close returned and its bytes reached the transport", op.w, op.idx, op.spec.Kind))
 				}
@@ -1156,6 +1180,27 @@ func runChanCase(c *ChanCase) *ChanResult {
 			if len(atGate) == 0 {
 				break
 			}
+			// livelock: the only goroutines that can move are Close calls polling for the sender role, the role is
+			// taken, and nobody who could give it back is alive
+			if w.closeLivelock(atGate) {
+				break
+			}
+			if c.Random != nil && c.Random.Policy == "wedge" {
+				// a peer that does not read: transport writes and flushes do not return before the transport is closed
+				var movable []string
+				for _, n := range atGate {
+					loc := s.Loc(n)
+					if (loc == "t.write" || loc == "t.writev" || loc == "t.flush") && !w.tr.IsClosed() {
+						continue
+					}
+					movable = append(movable, n)
+				}
+				if len(movable) == 0 {
+					w.oracleWedged(atGate)
+					break
+				}
+				atGate = movable
+			}
 			if rnd != nil {
 				kind, proc = w.pickRandom(rnd, atGate, prio)
 			} else {
@@ -1275,7 +1320,21 @@ func runChanCase(c *ChanCase) *ChanResult {
 				}
 			}
 			if gate == "c.poll" && proc == w.winner {
+				if w.winnerPolls == 0 {
+					w.firstPollAt = time.Now()
+				}
 				w.winnerPolls++
+			}
+			if proc == w.winner && (strings.HasPrefix(gate, "s.") || gate == "t.writev" || gate == "t.flush") {
+				w.winnerDrains = true
+			}
+			if gate == "c.seterr" && proc == w.winner && !w.graceChecked && c.QSize > 0 && !c.Until && w.winnerPolls > 0 && !w.winnerDrains {
+				// a bounded-wait Close gave up on a sender that is still busy: the documented grace period is 10 x 100 ms
+				// (sleeps can only take longer than asked for, so a shorter wait is the code's doing)
+				w.graceChecked = true
+				if el := time.Since(w.firstPollAt); el < 900*time.Millisecond {
+					w.fail("C06", "grace-period-short", fmt.Sprintf("a bounded-wait Close gave up waiting for the busy sender after %v (%d polls); the documented grace period is 10 x 100 ms", el.Round(time.Millisecond), w.winnerPolls))
+				}
 			}
 			qlenBefore := netty.VerifState(w.ch).QLen
 			if gate == "t.close" {
@@ -1314,6 +1373,25 @@ func runChanCase(c *ChanCase) *ChanResult {
 				}
 			}
 			w.prevLoc[ws.Name] = loc
+			_ = loc
+		}
+		// exclusive use of the transport's write side (sender role / write lock): two goroutines standing in transport
+		// write or flush calls at once can interleave the bytes of different messages on any transport whose vectored
+		// write is not one atomic call
+		{
+			var inIO []string
+			for _, n := range s.Names() {
+				if l := s.Loc(n); l == "t.write" || l == "t.writev" || l == "t.flush" {
+					inIO = append(inIO, n+"@"+l)
+				}
+			}
+			if len(inIO) > 1 {
+				w.fail("C09", "concurrent-transport-writers", fmt.Sprintf("%v stand in transport write/flush calls at the same time: nothing orders their bytes on the wire", inIO))
+				w.fail("C01", "concurrent-transport-writers", fmt.Sprintf("%v stand in transport write/flush calls at the same time", inIO))
+			}
+		}
+		for _, ws := range c.Writers {
+			loc := s.Loc(ws.Name)
 			// on a queued channel in non-blocking mode the caller never does (and waits for) the transport I/O itself
 			if c.QSize > 0 && !c.Until && (loc == "t.writev" || loc == "t.flush" || loc == "t.write") {
 				w.fail("C18", "nonblocking-inline-io", fmt.Sprintf("%s (a write call in non-blocking mode) stands at %s: the call itself waits for the transport", ws.Name, loc))
@@ -1429,6 +1507,41 @@ func (w *chanWorld) pcs() map[string]string {
 		out[k] = v
 	}
 	return out
+}
+
+// closeLivelock: every goroutine standing at a gate is a Close call about to poll again for the sender role, the role
+// is taken, and no sender (or Close in its drain) exists that could release it: the Close that took effect never completes.
+func (w *chanWorld) closeLivelock(atGate []string) bool {
+	if netty.VerifState(w.ch).Running == 0 || len(atGate) == 0 {
+		return false
+	}
+	for _, n := range atGate {
+		if w.s.Loc(n) != "c.poll" {
+			return false
+		}
+	}
+	// anybody alive who is not at a gate is parked: it cannot release the role either. Pollers that gave up
+	// (bounded wait) leave c.poll by themselves, so only the wait-forever mode can be stuck here.
+	if !w.c.Until {
+		return false
+	}
+	w.fail("C05", "close-never-completes", fmt.Sprintf("Close (%v) polls for the sender role for ever: the role is held and no sender is left that could release it; transport closed=%v, inactive events=%d", atGate, w.tr.IsClosed(), len(w.inactives)))
+	return true
+}
+
+// oracleWedged: the transport does not take any bytes (the peer does not read) and nothing else can move.
+func (w *chanWorld) oracleWedged(stuck []string) {
+	vs := netty.VerifState(w.ch)
+	for _, cs := range w.c.Closers {
+		loc := w.s.Loc(cs.Name)
+		if loc == "done" || loc == "none" || strings.HasPrefix(loc, "t.") {
+			continue // (a Close that drains the queue itself waits for the peer like any sender)
+		}
+		// a synchronous channel's Close needs nothing from the writers; a bounded-wait Close gives up by itself
+		if w.c.QSize == 0 || !w.c.Until {
+			w.fail("C05", "close-blocked-by-writer", fmt.Sprintf("Close call %s is %s (%s) while %v stand in transport calls that cannot return before the transport is closed: closed flag=%d, transport closed=%v", cs.Name, loc, w.s.ParkedStatus(cs.Name), stuck, vs.Closed, w.tr.IsClosed()))
+		}
+	}
 }
 
 // oracleAtTransportClose is evaluated immediately before the transport is closed.
